@@ -2223,23 +2223,30 @@ private:
 
         using state_table = state[state_count_cap];
         
+        constexpr static void push_situation(situation_vector& v, size32_t sit_idx)
+        {
+            if (v.size() >= max_sit_count_per_state_cap)
+                throw std::runtime_error("Situation count per state exceeds the cap");
+            v.push_back(sit_idx);
+        }
+
         constexpr bool add_situation(size16_t state_idx, size32_t sit_idx, bool to_kernel)
         {
             if (!simple_states[state_idx].test(sit_idx))
             {
                 simple_states[state_idx].set(sit_idx);
-                states[state_idx].all_situations_vec.push_back(sit_idx);
+                push_situation(states[state_idx].all_situations_vec, sit_idx);
                 situation_info info = make_situation_info(sit_idx);
                 const rule_info& ri = gi.rule_infos[info.rule_info_idx];
 
                 if (info.after < ri.r_elements)
                 {
                     const symbol& sm = gi.right_sides[ri.r_idx][info.after];
-                    states[state_idx].situations_by_symbol[sm.get_parse_table_idx()].push_back(sit_idx);
+                    push_situation(states[state_idx].situations_by_symbol[sm.get_parse_table_idx()], sit_idx);
                 }
                 else
                 {
-                    states[state_idx].situations_by_symbol[get_parse_table_idx(true, info.t)].push_back(sit_idx);
+                    push_situation(states[state_idx].situations_by_symbol[get_parse_table_idx(true, info.t)], sit_idx);
                 }
 
                 if (to_kernel)
@@ -2312,7 +2319,7 @@ private:
                     {
                         size32_t new_sit_idx = make_situation_idx(situation_info{ size16_t(sl.start + i), 0, t });
                         add_situation(state_idx, new_sit_idx, false);
-                        closures[sit_idx].push_back(new_sit_idx);
+                        push_situation(closures[sit_idx], new_sit_idx);
                     }
                 }
             }
@@ -2323,7 +2330,7 @@ private:
                 {
                     size32_t new_sit_idx = make_situation_idx(situation_info{ size16_t(sl.start + i), 0, info.t });
                     add_situation(state_idx, new_sit_idx, false);
-                    closures[sit_idx].push_back(new_sit_idx);
+                    push_situation(closures[sit_idx], new_sit_idx);
                 }
             }
         }
@@ -2397,7 +2404,7 @@ private:
                     if (!kernel.test(new_idx))
                     {
                         kernel.set(new_idx);
-                        kernel_vec.push_back(new_idx);
+                        push_situation(kernel_vec, new_idx);
                     }
                 }
             }
